@@ -474,6 +474,37 @@ func c11(ctx *run.Ctx) {
 			})
 		}
 	}
+	// Fixed witness of the known finding (independent of the seed): a single
+	// string column with an empty value in the middle.
+	ctx.Case("csv/rowOne/witness", func(cc *run.Case) {
+		dir, err := os.MkdirTemp("", "verif-c11w-")
+		if err != nil {
+			cc.Inconclusive(err.Error())
+			return
+		}
+		defer os.RemoveAll(dir)
+		file := filepath.Join(dir, "one.csv")
+		rows := []*rowOne{{"a"}, {""}, {"b"}}
+		c, _ := helper.NewCsv[rowOne](true)
+		if err := c.WriteToFile(file, helper.SliceToChan(rows)); err != nil {
+			cc.Viol("", "Csv[rowOne] witness: WriteToFile failed: "+err.Error(), nil)
+			return
+		}
+		in, err := c.ReadFromFile(file)
+		if err != nil {
+			cc.Viol("", "Csv[rowOne] witness: ReadFromFile failed: "+err.Error(), nil)
+			return
+		}
+		got := helper.ChanToSlice(in)
+		switch {
+		case sameRows(got, rows) == "":
+		case sameRows(got, []*rowOne{{"a"}, {"b"}}) == "":
+			cc.Viol("csv:lone-empty-field", "Csv[rowOne]: a row whose only field is the empty string is written as an empty line and skipped on read (1 of 3 rows lost)", map[string]any{"rows": describeRows(rows), "read_back": describeRows(got)})
+		default:
+			cc.Viol("", "Csv[rowOne] witness: wrote [a, \"\", b], read back "+fmt.Sprint(describeRows(got)), nil)
+		}
+		cc.Distinct("csv/rowOne/witness")
+	})
 	// JSON streams.
 	for b := 0; b < cases/per; b++ {
 		ctx.Case(fmt.Sprintf("json/%d", b), func(cc *run.Case) {
